@@ -418,6 +418,7 @@ func TestReplay(t *testing.T) {
 	run.ReplayOne(t, bigSpec)
 	run.ReplayOne(t, manySpec)
 	run.ReplayOne(t, sizeSpec)
+	run.ReplayOne(t, concSpec)
 }
 
 func evMax(name string, v float64) { ev.Default.MaxOf(name, v) }
